@@ -158,6 +158,71 @@ var("potential-prefix-via-retrieve", [(T, '''        # If the longest rules pref
             return bytes(history.webentity_prefix)
 ''')], "same value, copied")
 
+var("page-links-as-tuples", [(T, "                    pagelinks.append([source_lru, lru, weight])\n\n        return pagelinks\n", "                    pagelinks.append([source_lru, lru, weight])\n\n        return [tuple(x) for x in pagelinks]\n")],
+    "get_page_links returns tuples instead of lists")
+
+var("batch-yields-after-every-source", [(T, "            source_node.refresh()\n            store.add_outlinks(source_node, target_blocks)\n",
+                                        "            source_node.refresh()\n            store.add_outlinks(source_node, target_blocks)\n\n            if state.should_yield(yield_frequency):\n                yield state\n")],
+    "one more scheduling point in the crawl-batch request (after a source is completely written)")
+
+var("header-rewritten-at-open", [("traph/lru_trie/header.py", "        self.__ensure()\n        self.read()\n", "        self.__ensure()\n        self.read()\n        self.write()\n")],
+    "opening an index rewrites its header block with the bytes it already holds")
+
+var("inlinks-before-outlinks", [(T, """        for source_page, target_pages in outlinks.items():
+            source_node = pages[source_page]
+
+            # Refreshing node's data
+            source_node.refresh()
+            target_blocks = (pages[target_page].block for target_page in target_pages)
+            store.add_outlinks(source_node, target_blocks)
+
+        for target_page, source_pages in inlinks.items():
+            target_node = pages[target_page]
+
+            # Refreshing node's data
+            target_node.refresh()
+            source_blocks = (pages[source_page].block for source_page in source_pages)
+            store.add_inlinks(target_node, source_blocks)
+""", """        for target_page, source_pages in inlinks.items():
+            target_node = pages[target_page]
+
+            # Refreshing node's data
+            target_node.refresh()
+            source_blocks = (pages[source_page].block for source_page in source_pages)
+            store.add_inlinks(target_node, source_blocks)
+
+        for source_page, target_pages in outlinks.items():
+            source_node = pages[source_page]
+
+            # Refreshing node's data
+            source_node.refresh()
+            target_blocks = (pages[target_page].block for target_page in target_pages)
+            store.add_outlinks(source_node, target_blocks)
+""")], "add_links writes the inbound lists before the outbound ones")
+
+var("potential-prefix-none-instead-of-false", [(T, """                'Default rule failed to find a prefix for "%s"!' % lru, RuntimeWarning
+            )
+            return False
+""", """                'Default rule failed to find a prefix for "%s"!' % lru, RuntimeWarning
+            )
+            return None
+""")], "'no potential prefix' reported as None instead of False")
+
+var("network-as-plain-dicts", [(T, """                if state.should_yield(5000):
+                    yield state
+
+        yield state.finalize(graph)
+
+    def get_webentities_inlinks_iter""", """                if state.should_yield(5000):
+                    yield state
+
+        yield state.finalize({k: dict(v) for k, v in graph.items()})
+
+    def get_webentities_inlinks_iter""")], "the fast network is returned as plain dicts")
+
+var("variations-as-tuple", [(T, "        return lru_variations(prefix)\n", "        return tuple(lru_variations(prefix))\n")],
+    "expand_prefix returns a tuple")
+
 
 def apply_variant(v):
     def f(copy):
